@@ -154,7 +154,7 @@ def run_pairs(rng, n):
         add("get_pressures (expression of get_branch_results_gas)", ["p_abs_from", "p_abs_to", "p_abs_mean"],
             (paf, pat, pam), p_nb)
         # gas result post-processing, whole twin (numpy function vs numba wrapper) with a real fluid object; node
-        # temperatures differ from node to node; direction-switched rows are the known finding (counted, not reported)
+        # temperatures differ from node to node; half of the reverse-flow rows are direction-switched
         for fluid in _gas_nets():
             brs = br.copy()
             brs[:, B.FROM_NODE_T_SWITCHED] = (m < -2e-11)
@@ -164,9 +164,7 @@ def run_pairs(rng, n):
             g_nb = X.get_branch_results_gas_numba(fluid, brs, node, fn, tn, v_mps, pf, pt)
             gn = ["v_gas_from", "v_gas_to", "v_gas_mean", "p_abs_from", "p_abs_to", "p_abs_mean", "normfactor_from",
                   "normfactor_to", "normfactor_mean"]
-            sw_exc = (swr, "direction-switched branch: known finding C07-gas-normfactor-switched-branch")
-            gexc = {k: sw_exc for k in ("v_gas_from", "v_gas_mean", "normfactor_from", "normfactor_mean")}
-            add("get_branch_results_gas[%s]" % fluid.fluid.name, gn, g_np, g_nb, exc=gexc)
+            add("get_branch_results_gas[%s]" % fluid.fluid.name, gn, g_np, g_nb)    # switched rows included
     return res, kinds, {"branch_pit": br, "node_pit": node, "vec": v}
 
 
